@@ -1039,6 +1039,12 @@ def o_verdict_matrix(p, cfg):
                                     return True, "delete_if_invalid_object removed a referenced object"
                                 if state == "unreferenced" and not gone:
                                     return True, "delete_if_invalid_object kept an invalid unreferenced object"
+                            if cs_kind != "wrong" and size_kind == "right":
+                                # a size of 0 for a non-empty object is never "the size matches"
+                                o3 = outcome(s2.delete_if_invalid_object, om, cs, a, 0)
+                                if o3[0] == "return":
+                                    return True, (f"delete_if_invalid_object(state={state}, algo={a}, correct "
+                                                  "checksum, expected size 0) judged a non-empty object valid")
                             shutil.rmtree(r2, ignore_errors=True)
                     finally:
                         shutil.rmtree(root, ignore_errors=True)
@@ -1059,9 +1065,11 @@ def o_reject_matrix(p, cfg):
     bad_ids = [None, "", "  ", "a b", "tab\tid", "nl\nid", "nbsp\u00a0id", "em\u2003", "\u3000wide",
                "nel\u0085id", "\u00a0"]
     calls = []
+    fresh = tmp_input(root, b"content that is not in the store yet", "fresh.bin")
     for b in bad_ids:
         if b is not None:        # store_object(None, data) is the documented store-without-pid form
             calls.append(("store_object", (b, good), {}))
+            calls.append(("store_object", (b, fresh), {}))
         calls += [("tag_object", (b, om.cid), {}),
                   ("tag_object", ("pid-x", b), {}), ("delete_object", (b,), {}),
                   ("retrieve_object", (b,), {}), ("retrieve_metadata", (b,), {}),
